@@ -11,6 +11,7 @@ import MTfitVerif.Model.Csv
 import MTfitVerif.Model.Acceptance
 import MTfitVerif.Model.Proposal
 import MTfitVerif.Model.Chain
+import MTfitVerif.Model.Potency
 /- dispatch table of the executable model -/
 namespace MTfitVerif.Driver
 open MTfitVerif Proto
@@ -416,7 +417,77 @@ def opChain : P String := do
   pure (s!"{used} {s.tried + 1} {s.accepted + 1} {s.pDc} {s.adaptCalls} {s.chain.length} " ++
     " ".intercalate (s.chain.map fun e => s!"{e.tok} {e.ln}"))
 
+open Convert in
+def pV3 : P (V3 Float) := do let x ← flt; let y ← flt; let z ← flt; pure ⟨x, y, z⟩
+open Convert in
+def oV3 (v : V3 Float) : String := outFs [v.x, v.y, v.z]
+open Convert in
+def oSym (m : Sym3 Float) : String := outFs [m.xx, m.yy, m.zz, m.xy, m.xz, m.yz]
+open Convert in
+def oV6 (v : V6 Float) : String := outFs [v.a, v.b, v.c, v.d, v.e, v.f]
+
+/-- Gaussian elimination with partial pivoting (driver only: stands in for `np.linalg.solve`) -/
+def solveGauss (a : List (List Float)) (b : List Float) : List Float := Id.run do
+  let n := b.length
+  let mut m : Array (Array Float) := (List.zip a b).toArray.map fun (r, bi) => (r ++ [bi]).toArray
+  for col in [0:n] do
+    let mut piv := col
+    for r in [col:n] do
+      if Float.abs (m[r]!)[col]! > Float.abs (m[piv]!)[col]! then piv := r
+    let tmp := m[col]!
+    m := m.set! col m[piv]!
+    m := m.set! piv tmp
+    for r in [0:n] do
+      if r != col then
+        let f := (m[r]!)[col]! / (m[col]!)[col]!
+        m := m.set! r ((m[r]!).mapIdx fun j v => v - f * (m[col]!)[j]!)
+  pure ((List.range n).map fun i => (m[i]!)[n]! / (m[i]!)[i]!)
+
+open Convert in
+/-- `conv <name> args…`: the parameter conversions -/
+def opConv : P String := do
+  let name ← tok
+  match name with
+  | "mt33mt6" => do
+    let v ← flts 6; done
+    pure (oV6 (mt33ToMt6 ⟨v[0]!, v[1]!, v[2]!, v[3]!, v[4]!, v[5]!⟩))
+  | "mt6mt33" => do
+    let v ← flts 6; done
+    pure (oSym (mt6ToMt33 ⟨v[0]!, v[1]!, v[2]!, v[3]!, v[4]!, v[5]!⟩))
+  | "gde" => do let g ← flt; let d ← flt; done; pure (oV3 (gdToE g d))
+  | "egd" => do let e ← pV3; done; let r := eToGd e; pure (outFs [r.1, r.2])
+  | "sdrtnp" => do
+    let s ← flt; let d ← flt; let r ← flt; done
+    let (T, N, Pp) := sdrToTnp s d r
+    pure (oV3 T ++ " " ++ oV3 N ++ " " ++ oV3 Pp)
+  | "fptnp" => do
+    let n ← pV3; let s ← pV3; done
+    let (T, N, Pp) := fpToTnp n s
+    pure (oV3 T ++ " " ++ oV3 N ++ " " ++ oV3 Pp)
+  | "tpfp" => do let t ← pV3; let p ← pV3; done; let r := tpToFp t p; pure (oV3 r.1 ++ " " ++ oV3 r.2)
+  | "fpsdr" => do let n ← pV3; let s ← pV3; done; let r := fpToSdr n s; pure (outFs [r.1, r.2.1, r.2.2])
+  | "normalsd" => do let n ← pV3; done; let r := normalToSd n; pure (outFs [r.1, r.2])
+  | "sdrsdr" => do let s ← flt; let d ← flt; let r ← flt; done; let q := sdrToSdr s d r; pure (outFs [q.1, q.2.1, q.2.2])
+  | "sdrfp" => do let s ← flt; let d ← flt; let r ← flt; done; let q := sdrToFp s d r; pure (oV3 q.1 ++ " " ++ oV3 q.2)
+  | "tnpsdr" => do let t ← pV3; let p ← pV3; done; let q := tnpToSdr t p; pure (outFs [q.1, q.2.1, q.2.2])
+  | "tapemt33" => do let x ← pTape; done; pure (oSym (tapeToMt33 x.gamma x.delta x.kappa x.h x.sigma))
+  | "eigtape" => do
+    let t ← pV3; let p ← pV3; let e ← pV3; done
+    let r := eigToTape t p e
+    pure (outFs [r.1, r.2.1, r.2.2.1, r.2.2.2.1, r.2.2.2.2])
+  | "etk" => do let e ← pV3; done; let r := eToTk e; pure (outFs [r.1, r.2])
+  | "etksorted" => do let e ← pV3; done; let r := eToTk (sort3 e); pure (outFs [r.1, r.2])
+  | "tkuv" => do let t ← flt; let k ← flt; done; let r := tkToUv t k; pure (outFs [r.1, r.2])
+  | "cdcgd" => do let a ← flt; let nu ← flt; done; let r := cdcToGd a nu; pure (outFs [r.1, r.2])
+  | "gdcdc" => do let g ← flt; let d ← flt; done; let r := gdToCdc g d; pure (outFs [r.1, r.2])
+  | "isoc" => do let l ← flt; let m ← flt; done; pure (outFs (Potency.isotropicC l m))
+  | "cvoigt" => do let cc ← flts 21; done; pure (outFs (Potency.cvoigt cc).flatten)
+  | "cnorm" => do let cc ← flts 21; done; pure (outF (Potency.cNorm cc))
+  | "mt6cd6" => do let cc ← flts 21; let m ← flts 6; done; pure (outFs (Potency.mt6cToD6 solveGauss cc m))
+  | _ => pure "bad-op:conv"
+
 def table : List (String × P String) := [
+  ("conv", opConv),
   ("shift", opShift),
   ("transd", opTransD),
   ("jumpdraw", opJumpDraw),
